@@ -1,14 +1,16 @@
 # /verif build: Coq development (full .vo build), extracted OCaml model drivers.
 SHELL=/bin/bash
 .PHONY: setup coq extract clean
-setup: coq extract
+setup:
+	-@$(MAKE) --no-print-directory -k coq
+	@$(MAKE) --no-print-directory -k extract
 coq:
 	@cd coq && ( echo "-Q . DDP"; find . -name '*.v' ! -name '*_audit.v' | sed 's|^\./||' | LC_ALL=C sort ) > _CoqProject.new && \
 	  ( cmp -s _CoqProject.new _CoqProject || { mv _CoqProject.new _CoqProject; coq_makefile -f _CoqProject -o Makefile.coq >/dev/null; } ) ; rm -f _CoqProject.new ; \
 	  [ -f Makefile.coq ] || coq_makefile -f _CoqProject -o Makefile.coq >/dev/null ; \
 	  timeout 1600 $(MAKE) --no-print-directory -f Makefile.coq 2>&1 | grep -v '^COQDEP\|^COQC\|^make\[' ; exit $${PIPESTATUS[0]}
-extract: coq
-	@$(MAKE) --no-print-directory -C extract
+extract:
+	@$(MAKE) --no-print-directory -k -C extract
 clean:
 	-cd coq && [ -f Makefile.coq ] && $(MAKE) -f Makefile.coq cleanall
 	rm -rf coq/Makefile.coq coq/Makefile.coq.conf coq/_CoqProject extract/_build .cache replay
